@@ -42,7 +42,25 @@ var MemLimitKB = 6 * 1024 * 1024
 
 // RunCLI runs the real gocc binary in dir under the watchdog.
 func (t *Tools) RunCLI(dir string, args ...string) Result {
-	return runProc(dir, Horizon, t.Gocc, args...)
+	return runProcConfirm(dir, t.Gocc, args...)
+}
+
+var confirmedHangs atomic.Int32
+
+// runProcConfirm: a run that exceeds the horizon is run once more under a horizon twelve times as long before it is
+// called a hang - on a machine busy with other work a large grammar can need more than the horizon without hanging
+// (no verdict may rest on a short wall-clock deadline). After three confirmed hangs the second run is dropped
+// (a generator that really hangs on many grammars would otherwise cost four minutes for each of them).
+func runProcConfirm(dir string, bin string, args ...string) Result {
+	res := runProc(dir, Horizon, bin, args...)
+	if res.Hang && confirmedHangs.Load() < 3 {
+		again := runProc(dir, 12*Horizon, bin, args...)
+		if !again.Hang {
+			return again
+		}
+		confirmedHangs.Add(1)
+	}
+	return res
 }
 
 // RunCLIEnv is RunCLI with extra environment variables.
@@ -51,7 +69,7 @@ func (t *Tools) RunCLIEnv(dir string, env map[string]string, args ...string) Res
 		os.Setenv(k, v)
 		defer os.Unsetenv(k)
 	}
-	return runProc(dir, Horizon, t.Gocc, args...)
+	return runProcConfirm(dir, t.Gocc, args...)
 }
 
 func runProc(dir string, horizon time.Duration, bin string, args ...string) Result {
